@@ -333,6 +333,16 @@ theorem internalized_all_recognised : KinModel.Gen.internalized.all (fun r => !K
 theorem internalized_matches_model : KinModel.Gen.internalized = KinModel.Gen.modelDescent := by
   decide
 
+/-- **each of the nine add…ToSpec methods looks the name up in, creates, and stores into its OWN kind's map of
+`doc.Components`, and writes its own kind's `#/components/<kind>/` text** (regenerated on every run; the model's single
+`addCore` does exactly this for the cell's collection). A lookup in a neighbouring kind's map (seeded C16-r3m2) breaks it. -/
+theorem add_uses_own_kind_map : KinModel.Gen.internalizedAdd.all KinModel.Gen.addRowOK = true := by
+  decide
+
+/-- every add…ToSpec has exactly the steps the model's `addCore` has, in that order; all nine are there -/
+theorem add_steps_as_modelled : KinModel.Gen.addShapeOK KinModel.Gen.internalizedAdd = true := by
+  decide
+
 /-- **every field of the document types through which a reference position can be reached from `openapi3.T` is read by
 the descent of InternalizeRefs** — except `Parameter.Examples` (finding F-C16-7). The table is regenerated from the type
 declarations and from internalize_refs.go on every run: a new ref-bearing field the descent does not visit, or a visit
@@ -452,6 +462,13 @@ theorem positions_outside_external_unchanged (h : Heap) (s : St) (hd : internali
 theorem root_components_kept (h : Heap) (s : St) (hd : internalize h = .done s) (k nm : Str) (e : Comp)
     (hk : k ≠ callbacksK) (hl : lookup (initSt h) k nm = some e) : lookup s k nm = some e :=
   Reach.invariant (InvKept h) (invKept_step h) (internalize_reach h s hd) (invKept_init h) k nm e hk hl
+
+/-- **the nine component collections are kept apart**: an entry of collection `k` differs from what the root document had
+only if a reference OF COLLECTION `k` was given that name — internalising a response named `common_Item` neither creates
+nor hides a request body `common_Item` (seeded C16-r3m2 is the code-side violation of this) -/
+theorem components_changed_only_by_own_kind (h : Heap) (s : St) (hd : internalize h = .done s) (k nm : Str) :
+    lookup s k nm = lookup (initSt h) k nm ∨ ∃ ev ∈ s.log, (cellOf h ev.cell).k = k ∧ ev.name? = some nm :=
+  Reach.invariant (InvOwn h) (invOwn_step h) (internalize_reach h s hd) (invOwn_init h) k nm
 
 /-- a reference cell the loader left empty stays empty -/
 theorem empty_refs_stay_empty (h : Heap) (s : St) (hd : internalize h = .done s) (c : Nat) (h0 : origRef h c = []) :
@@ -631,6 +648,23 @@ theorem regression_callback_cycle :
 theorem regression_callback_cycle_via_paths :
     doneB hCallbackCycleViaPaths (fun s => specB hCallbackCycleViaPaths s && hypsB hCallbackCycleViaPaths s) = true := by
   decide +kernel
+
+/-- a response and a request body that are both named `common_Item`, the response internalised first: both components
+exist, each reference leads to its own (the input of seeded C16-r3m2) -/
+theorem regression_same_name_two_kinds :
+    doneB hSameName (fun s => hypsB hSameName s &&
+      (lookup s "responses".toList "common_Item".toList).isSome &&
+      (lookup s "requestBodies".toList "common_Item".toList).isSome &&
+      s.refs[1]! == "#/components/requestBodies/common_Item".toList) = true := by decide +kernel
+
+/-- a media type without schema: its example and its encoding header are internalised (the input of seeded C16-r3m1) -/
+theorem regression_media_type_without_schema :
+    doneB hNoSchemaMT (fun s => hypsB hNoSchemaMT s && s.refs[3]! == "#/components/examples/ex".toList &&
+      s.refs[1]! == "#/components/headers/h".toList) = true := by decide +kernel
+
+/-- a path item file that is itself a reference (376b90f): the operations arrive, the response below is internalised -/
+example : doneB hPathItemFileChain (fun s => hypsB hPathItemFileChain s &&
+    s.refs[0]! == "#/components/responses/sub_r".toList) = true := by decide +kernel
 
 /-- non-vacuity of `spec_holds_partial` / of (i)–(iii): documents with external references of several styles satisfy
 every hypothesis (and components were added, cells rewritten) -/
